@@ -1136,6 +1136,10 @@ class Interp:
             if op in ("Eq", "Ne", "Lt", "Le", "Gt", "Ge"):
                 return VBool(("opq", ("cmp", op, valkey(a), valkey(b))))
             return VOpaque("bin(%s)" % op)
+        if isinstance(a, VApp):
+            a = self.app_as_int(st, a)
+        if isinstance(b, VApp):
+            b = self.app_as_int(st, b)
         if not (isinstance(a, VInt) and isinstance(b, VInt)):
             raise Unanalysable("binop %s on %r, %r" % (op, a, b))
         w, s = a.w, a.s
@@ -1282,6 +1286,8 @@ class Interp:
 
     def cast(self, st, kind, x, tix):
         t = self.f.types[tix]
+        if kind in ("IntToInt", "IntToFloat") and isinstance(x, VApp):
+            x = self.app_as_int(st, x)
         if kind == "IntToInt":
             if isinstance(x, VBool):
                 w, s = t["w"], t["s"]
@@ -1624,6 +1630,18 @@ class Interp:
                 return self.call_closure_body(st, b, args[0], args[1], ctx)
             return self.call_local(st, b, args, ctx, target)
         h = self.ext.get(key) or self.ext.get(callee["def"])
+        if h is None and key.endswith("::{constructor#0}"):
+            # tuple struct / tuple variant constructor used as a function (`map(p, Foo::Bar)`)
+            path = key[:-len("::{constructor#0}")]
+            if path in self.f.adts and self.f.adts[path].get("variants"):
+                return [(st, VAdt(path, 0, tuple(args)))]
+            if "::" in path:
+                parent, vname = path.rsplit("::", 1)
+                adt = self.f.adts.get(parent)
+                if adt and adt.get("variants"):
+                    for vi, var in enumerate(adt["variants"]):
+                        if var["name"] == vname and len(var["fields"]) == len(args):
+                            return [(st, VAdt(parent, vi, tuple(args)))]
         if h is None:
             # trait-method call on an abstract callable value?
             h = self.ext.get("__default__")
@@ -1979,6 +1997,49 @@ class Interp:
             else:
                 raise Unanalysable("leaf %s does not return a Result: %r" % (app.defn, rv))
         return [(vi, VApp(app.defn, app.args, None, app.proj + (("variant", vi), ("f", 0)))) for vi in sorted(vs)]
+
+    def app_proj_type(self, app, proj):
+        """type index of a projection of a leaf's result (Result / Option payloads only), or None"""
+        b = self.f.bodies.get(app.defn)
+        if b is None:
+            return None
+        ti = b["locals"][0]
+        for p in tuple(app.proj) + tuple(proj):
+            t = self.f.types[ti]
+            if p[0] == "variant":
+                cur_variant = p[1]
+                continue
+            if p[0] == "f":
+                if t["k"] != "adt" or p[1] != 0:
+                    return None
+                if t["def"] == RESULT:
+                    ti = t["args"][cur_variant]["ty"]
+                elif t["def"] == OPTION and cur_variant == 1:
+                    ti = t["args"][0]["ty"]
+                else:
+                    return None
+        return ti
+
+    def app_as_int(self, st, papp):
+        """a leaf application whose (projected) result is an integer, as an atom usable in arithmetic;
+        the VApp itself when it is not an integer"""
+        app, proj = papp, ()
+        ti = None
+        try:
+            ti = self.app_proj_type(VApp(papp.defn, papp.args, None, ()), papp.proj)
+        except Exception:
+            ti = None
+        if ti is not None and self.f.types[ti]["k"] == "int":
+            t = self.f.types[ti]
+            tr = ty_range(t["w"], t["s"])
+            r = None
+            try:
+                r = self.app_int_range(st, papp)
+            except Unanalysable:
+                r = None
+            lo, hi = (tr.min(), tr.max()) if (r is None or r.is_empty()) else (max(tr.min(), r.min()), min(tr.max(), r.max()))
+            return VInt(t["w"], t["s"], lin=Lin.atom(("app", app.defn, (("proj", papp.proj),) + tuple(valkey(a) for a in app.args), lo, hi)))
+        return papp
 
     def app_int_range(self, st, app):
         res, _ = self.leaf_paths(st, app)
